@@ -8,3 +8,48 @@ package protocol
 //@   pure
 //@   ensures [atomic] err != nil ==> ret == nil
 //@   ensures [nonnil] err == nil ==> ret != nil
+
+// ---------------------------------------------------------------------------
+// thin interface contracts used by the handlers (C19: results that are dereferenced are non-nil
+// when no error is reported). The concrete implementations in this repository satisfy them:
+// Applier.Apply#ensures[atomic], Parser.Parse#ensures[atomic], the transformers' own contracts;
+// the Version / Client accessors return the objects stored at construction.
+//
+//@ func (c Client) Current() (v, err)
+//@   pure
+//@   ensures [nonnil] err == nil ==> v != nil
+//
+//@ func (v Version) OperationParser() (p)
+//@   pure
+//@   ensures [nonnil] p != nil
+//@ func (v Version) OperationApplier() (a)
+//@   pure
+//@   ensures [nonnil] a != nil
+//@ func (v Version) DocumentTransformer() (t)
+//@   pure
+//@   ensures [nonnil] t != nil
+//@ func (v Version) DocumentValidator() (d)
+//@   pure
+//@   ensures [nonnil] d != nil
+//@ func (v Version) Protocol() (p)
+//@   pure
+//@ func (v Version) Version() (s)
+//@   pure
+//
+//@ func (p OperationParser) Parse(namespace, operation) (op, err)
+//@   pure
+//@   ensures [atomic] (err != nil ==> op == nil) && (err == nil ==> op != nil)
+//@ func (p OperationParser) ParseDID(namespace, shortOrLongFormDID) (did, req, err)
+//@   pure
+//@ func (p OperationParser) GetRevealValue(operation) (rv, err)
+//@   pure
+//@ func (p OperationParser) GetCommitment(operation) (cm, err)
+//@   pure
+//
+//@ func (a OperationApplier) Apply(op, rm) (ret, err)
+//@   pure
+//@   ensures [atomic] (err != nil ==> ret == nil) && (err == nil ==> ret != nil && ret.Doc != nil)
+//
+//@ func (t DocumentTransformer) TransformDocument(rm, info) (ret, err)
+//@   pure
+//@   ensures [atomic] (err != nil ==> ret == nil) && (err == nil ==> ret != nil)
